@@ -15,11 +15,25 @@ NOT CHECKED (the recogniser answers None = "debatable", the case is skipped):
   * P lines whose names field is only ambiguous (`A+,=B+`), paths whose links are not written;
   * duplicate identifiers / duplicate lines (C09/C12), empty lines in the middle of a document;
   * in E/F lines: a last position written without `$`, positions beyond the segment's end, `5$ 7`
-    or `5$ 6$` without the segment at hand, segments whose sequence length differs from slen;
+    or `5$ 6$` without the segment at hand (a lone line; the fragment-side interval of an F line),
+    segments whose sequence length differs from slen;
   * the kind of line an O-group item refers to; what a valid O group must be connected by;
   * which *class* of gfapy.Error is raised, and whether a line is refused at construction or only by
     validate() (both are allowed by the property).
 A foreign (non gfapy.Error) exception is reported under `foreign-exception` (C07 owns its diagnosis).
+
+`$` ONLY ON A SEGMENT'S LAST POSITION is judged for *each of the four* segment positions of an E line and both
+segment positions of an F line, begin positions included: the line-level recogniser leaves `5$ 7` and `5$ 10$`
+open ("dollar-beg-only", "two-last-positions") because a lone line cannot say where the segment ends; in a
+document the segment is at hand and doc_verdict() below settles it (rule `dollar`, or `dollar-slen` - the open
+known finding - when the segment's sequence is `*`).  Inputs that exercise the rule:
+  * CROSS: every pair begin/end out of {0, mid, last, beyond} x {with `$`, without} on either side of an E line
+    and on an F line, over segments with a sequence and with `*`, non-self and self edges, E before and after S;
+  * random kind "posdoc": a GFA2 document of 2-3 segments (mostly with a sequence) and 1-3 E/F lines (self-edges,
+    both orientations, any order of the lines) whose position pairs are drawn position by position from
+    {0, inner, last-1, last, last+1} with the `$` mark right / missing / misplaced on the begin, on the end or on
+    both; it is offered as a text (Gfa(text)) or line by line (Gfa() + add_line), then validate() of the Gfa and of
+    each line.
 """
 import itertools
 from harness import lib
@@ -30,7 +44,10 @@ RULE = ("exhaustive: every string of length <=3 (quick) / <=4 (thorough) over a 
         "representatives, offered as the value of a tag of each of the 7 datatypes and in each kind of positional field, "
         "levels 1-3; every single-point mutation (delete / insert / replace a character, drop / duplicate a field or a "
         "line) of 25 valid lines covering all record types and of 3 small valid documents (GFA1, GFA2, rGFA), with the "
-        "version given and inferred; random: grammar-generated lines and documents with one or two random mutations. "
+        "version given and inferred; hand-enumerated probes of the cross-field rules, among them every placement of `$` on "
+        "the begin and end positions of E and F lines against segments with and without a sequence; random: "
+        "grammar-generated lines and documents with one or two random mutations, and GFA2 documents whose E/F "
+        "intervals carry `$` marks on right and wrong positions (built from a text or line by line). "
         "Non-trivial: the independent recogniser gives a clear-cut verdict for at least one offered string.")
 
 # ---------------------------------------------------------------------------------------------------- alphabets
@@ -134,6 +151,27 @@ def _cross():
                 if sid == "A":
                     for l in (el, er, fl, fr):
                         X.append(("line", "gfa2", None, l))
+    # `$` on each of the four positions of an edge / both segment positions of a fragment, against segments with
+    # a sequence (a: 10, b: 12) and without (c: 9); self-edges; the E/F line before and after the S lines
+    S3 = ["S\ta\t10\tACGTACGTAC", "S\tb\t12\tACGTACGTACGT", "S\tc\t9\t*"]
+    LEN = {"a": 10, "b": 12, "c": 9}
+    for sid, other in (("a", "b"), ("b", "a"), ("b", "b"), ("c", "a")):
+        n = LEN[sid]
+        pv = [0, n // 2, n, n + 1]
+        for bi, b in enumerate(pv):
+            for e in pv[bi:]:
+                for db in ("", "$"):
+                    for de in ("", "$"):
+                        if not db and not de and not (b == 0 and e == n):
+                            continue         # pairs without any `$`: the block above
+                        P = (str(b) + db, str(e) + de)
+                        ok_o = ("0", "%d$" % LEN[other])
+                        ls = ["E\t*\t%s+\t%s-\t%s\t%s\t%s\t%s\t*" % ((sid, other) + P + ok_o),
+                              "E\t*\t%s-\t%s+\t%s\t%s\t%s\t%s\t*" % ((other, sid) + ok_o + P)]
+                        if sid != other:
+                            ls.append("F\t%s\tr+\t%s\t%s\t0\t1\t*" % ((sid,) + P))
+                        for k, l in enumerate(ls):
+                            X.append(("doc", "gfa2", "standard", "\n".join(S3 + [l] if (bi + k) % 2 == 0 else [l] + S3)))
     # undefined references, field by field
     for l in ("L\tA\t+\tX\t-\t*", "L\tX\t+\tA\t-\t*", "C\tA\t+\tX\t-\t0\t*", "C\tX\t+\tA\t-\t0\t*", "P\tp\tA+,X+\t*",
               "P\tp\tX+\t*", "L\tA\t+\tB\t-\t*"):
@@ -412,11 +450,76 @@ def mutate(rng, s):
     return "\n".join(lines), "%s@%d.%d" % (k, li, j)
 
 
+def rnd_pospair(rng, n, style):
+    """(begin, end) of an interval on a segment of n positions; `style` says where the `$` marks go:
+    right (exactly on the last position), beg$ / end$ / both$ (forced on that position, right on the other),
+    none, random"""
+    def pos():
+        return rng.pick([0, 1, n // 2, n - 1, n, n, n]) if rng.chance(0.93) else n + 1
+    b, e = pos(), pos()
+    if b > e and rng.chance(0.9):
+        b, e = e, b
+
+    def mark(v, which):
+        if style == "none":
+            return False
+        if style == "random":
+            return rng.chance(0.5)
+        if style == "both$" or style == which + "$":
+            return True
+        return v == n
+    return str(b) + ("$" if mark(b, "beg") else ""), str(e) + ("$" if mark(e, "end") else "")
+
+
+POS_STYLES = ["right", "right", "right", "right", "beg$", "beg$", "end$", "both$", "none", "random"]
+
+
+def rnd_posdoc(rng):
+    """a GFA2 document about the rule "`$` only on a segment's last position": 2-3 segments, most with a sequence,
+    1-3 E/F lines with intervals from rnd_pospair (most of them right), lines in any order"""
+    segs = rng.sample(["a", "b", "c", "1", "x+y"], rng.pick([2, 2, 3]))
+    lens = {}
+    L = ["H\tVN:Z:2.0"] if rng.chance(0.3) else []
+    for s in segs:
+        n = rng.pick([1, 4, 6, 10, 12])
+        lens[s] = n
+        seq = "".join(rng.pick("ACGT") for _ in range(n)) if rng.chance(0.85) else "*"
+        L.append("S\t%s\t%d\t%s" % (s, n, seq))
+    body = []
+    for j in range(rng.pick([1, 1, 2, 3])):
+        if rng.chance(0.75):
+            s1 = rng.pick(segs)
+            s2 = rng.pick(segs) if rng.chance(0.3) else rng.pick([x for x in segs if x != s1])
+            l = "\t".join(["E", rng.pick(["*", "e%d" % j]), s1 + rng.pick("+-"), s2 + rng.pick("+-")]
+                          + list(rnd_pospair(rng, lens[s1], rng.pick(POS_STYLES)))
+                          + list(rnd_pospair(rng, lens[s2], rng.pick(POS_STYLES)))
+                          + [rng.pick(["*", "*", "2M", "1M1I1D", "4,2"])])
+        else:
+            s1 = rng.pick(segs)
+            l = "\t".join(["F", s1, rng.pick(["r1", "read/2"]) + rng.pick("+-")]
+                          + list(rnd_pospair(rng, lens[s1], rng.pick(POS_STYLES)))
+                          + rng.pick([["0", "5"], ["3", "3"], ["0", "20$"], ["20$", "20$"]]) + ["*"])
+        if l not in body:
+            body.append(l)
+    L += body
+    rng.shuffle(L)
+    return L
+
+
 def gen_case(rng, tier, i):
     version = rng.pick(["gfa1", "gfa2"])
     vlevel = rng.pick([1, 2, 3])
     vmode = rng.pick(["given", "given", "none"])
     k = rng.random()
+    if k >= 0.8:
+        text = "\n".join(rnd_posdoc(rng))
+        d = []
+        build = rng.pick(["text", "text", "lines"])
+        if build == "text" and rng.chance(0.2):
+            text, x = mutate(rng, text); d.append(x)
+        return {"kind": "posdoc", "version": "gfa2", "dialect": "standard", "vlevel": vlevel, "vmode": vmode,
+                "build": build, "text": text, "mut": d}
+    k = k / 0.8
     if k < 0.35:
         s = rnd_line(rng, version)
         nm = rng.pick([0, 1, 1, 2])
@@ -472,10 +575,16 @@ def lib_line(text, vlevel, version):
     return "acc", ""
 
 
-def lib_doc(text, vlevel, version, dialect):
+def lib_doc(text, vlevel, version, dialect, build="text"):
+    """build="text": Gfa(text); build="lines": an empty Gfa to which the lines are added one by one"""
     gfapy = lib.import_gfapy()
     try:
-        g = gfapy.Gfa(text, vlevel=vlevel, version=version, dialect=dialect)
+        if build == "lines":
+            g = gfapy.Gfa(vlevel=vlevel, version=version, dialect=dialect)
+            for ln in text.split("\n"):
+                g.add_line(ln)
+        else:
+            g = gfapy.Gfa(text, vlevel=vlevel, version=version, dialect=dialect)
     except gfapy.Error as e:
         return "rej-ctor", e.__class__.__name__
     except RecursionError:
@@ -582,10 +691,56 @@ def offered(case):
     elif k == "line":
         lv = case["version"] if case["vmode"] == "given" else None
         out.append(("line", case["text"], lv, lv, None))
-    elif k == "doc":
+    elif k in ("doc", "posdoc"):
         lv = case["version"] if case["vmode"] == "given" else None
         out.append(("doc", case["text"], lv, lv, case.get("dialect", "standard")))
     return out
+
+
+_OPEN_AT_LINE_LEVEL = ("two-last-positions", "dollar-beg-only")
+
+
+def doc_verdict(lines, version, dialect):
+    """M.doc_verdict, plus the judgement of a `$` on a *begin* position, which the line-level recogniser leaves
+    open (`5$ 7`, `5$ 10$`: where the segment ends is not known to a lone line) and a document settles.
+
+    The `$` is taken off every such begin position and the rest of the document is judged by M.doc_verdict: a
+    begin position without `$` never makes a document invalid (at most debatable: last position without `$`,
+    position beyond the end), so an invalid rest means an invalid document, a debatable rest stays debatable, and
+    a fully valid rest means that every begin position concerned lies strictly before the end of a segment whose
+    length is known: the `$` that was on it is not on the segment's last position."""
+    v, r = M.doc_verdict(lines, version, dialect)
+    if v is not None or version != "gfa2" or r not in _OPEN_AT_LINE_LEVEL:
+        return v, r
+    segs = {}
+    for ln in lines:
+        f = ln.split("\t")
+        if f[0] == "S" and len(f) >= 4:
+            segs[f[1]] = f
+    marks = []
+    rest = []
+    for ln in lines:
+        f = ln.split("\t")
+        pairs = []
+        if f[0] == "E" and len(f) >= 9:
+            pairs = [(f[2][:-1], 4, 5), (f[3][:-1], 6, 7)]
+        elif f[0] == "F" and len(f) >= 8:
+            pairs = [(f[1], 3, 4)]        # the other interval lies on the external sequence: never at hand
+        for name, b, e in pairs:
+            if not (M.RE_POS2.match(f[b]) and M.RE_POS2.match(f[e]) and f[b].endswith("$")):
+                continue
+            if M.posval(f[b]) <= M.posval(f[e]) and not (f[e].endswith("$") and M.posval(f[b]) == M.posval(f[e])):
+                marks.append(name)
+                f[b] = f[b][:-1]
+        rest.append("\t".join(f))
+    if not marks:
+        return v, r
+    v2, r2 = M.doc_verdict(rest, version, dialect)
+    if v2 is not True:
+        return v2, r2
+    if any(m not in segs for m in marks):
+        return None, r
+    return False, ("dollar" if any(segs[m][3] != "*" for m in marks) else "dollar-slen")
 
 
 def grammar(what, text, version, dialect):
@@ -595,9 +750,9 @@ def grammar(what, text, version, dialect):
     if lines and lines[-1] == "" and len(lines) > 1:
         lines = lines[:-1]            # the newline that ends the last line of a file
     if version is not None:
-        return M.doc_verdict(lines, version, dialect)
-    a, ra = M.doc_verdict(lines, "gfa1", dialect)
-    b, rb = M.doc_verdict(lines, "gfa2", dialect)
+        return doc_verdict(lines, version, dialect)
+    a, ra = doc_verdict(lines, "gfa1", dialect)
+    b, rb = doc_verdict(lines, "gfa2", dialect)
     if a is True or b is True:
         return True, "ok"
     if a is None or b is None:
@@ -646,7 +801,9 @@ def oracle(case):
         if what == "line":
             res = lib_line(text, case["vlevel"], lv)
         else:
-            res = lib_doc(text, case["vlevel"], lv, dialect or "standard")
+            res = lib_doc(text, case["vlevel"], lv, dialect or "standard", case.get("build", "text"))
+            if case.get("build", "text") != "text":
+                ctx += " build=" + case["build"]
         judge(F, what, text, verdict, rule, res, ctx)
     # one failure per (signature) and case is enough for the histogram; keep the first of each
     seen = set(); out = []
